@@ -141,8 +141,9 @@ impl NState {
     }
 }
 
-fn wcfg(cloud: bool, perm: bool) -> WorldCfg {
+fn wcfg(cloud: bool, perm: bool, bystanders: bool) -> WorldCfg {
     let mut c = WorldCfg::default();
+    c.bystanders = bystanders;
     c.oracle_pubkeys = vec![oracle_pub(0)];
     c.cloud = cloud;
     c.permanent_ids = perm;
@@ -317,7 +318,9 @@ impl Model for NodeModel {
     }
 
     fn init(&self) -> NState {
-        let w = World::new(wcfg(self.cfg.cloud, self.cfg.perm));
+        // where channel 1 exists from the start, two idle channels surround it in the tracker's
+        // listener order
+        let w = World::new(wcfg(self.cfg.cloud, self.cfg.perm, !matches!(self.cfg.scen, Scen::Lifecycle | Scen::Ids)));
         let mut chain = w.new_sim_chain();
         let b = make_block(&chain.tip().0, chain.height() + 1, 0, vec![]);
         assert!(w.connect(&mut chain, b, Delivery::Compact).is_ok());
